@@ -101,7 +101,11 @@ impl FileSpec {
             Err(FlexiLoggerError::OutputBadFile)
         } else {
             Ok(FileSpec {
-                directory: p.parent().unwrap(/*cannot fail*/).to_path_buf(),
+                directory: match p.parent() {
+                    Some(parent) if !parent.as_os_str().is_empty() => parent.to_path_buf(),
+                    // a bare file name denotes a file in the current folder
+                    _ => PathBuf::from("."),
+                },
                 basename: p.file_stem().unwrap(/*ok*/).to_string_lossy().to_string(),
                 o_discriminant: None,
                 o_suffix: p.extension().map(|s| s.to_string_lossy().to_string()),
